@@ -4,6 +4,7 @@
   fixes/C34-sizev2-exact-integers.patch.
 -/
 import Influx.Lemmas.Toml
+import Influx.Lemmas.Duration
 import Influx.Spec.C34
 
 namespace Influx.Props.C34
@@ -34,6 +35,13 @@ theorem C34_ssizeV2_decimal (x : Int) (hx : -(2 ^ 63 : Int) ≤ x ∧ x < 2 ^ 63
 theorem C34_toml_size (x : Nat) (hx : x ≤ 2 ^ 63 - 1) : tomlRoundTripV2U x = .ok x := toml_v2u x hx
 theorem C34_toml_ssize (x : Int) (hx : -(2 ^ 63 : Int) ≤ x ∧ x < 2 ^ 63) : tomlRoundTripV2S x = .ok x :=
   toml_v2s x hx
+
+/-- **Duration**: `time.ParseDuration(d.String()) = d` for every int64 nanosecond count (incl. MinInt64,
+    sub-second units with the two-byte `µ`, and the float64 arithmetic of fractional components, which is
+    shown to be exact here), hence `UnmarshalText(MarshalText(d)) = d`. -/
+theorem C34_duration_roundtrip (d : Int) (hd : -(2 ^ 63 : Int) ≤ d ∧ d < 2 ^ 63) :
+    durUnmarshal (durString d) = some d :=
+  Influx.Lemmas.Duration.duration_roundtrip d hd
 
 /-- what the fix repaired (F14), on the model of the original code: 2^53+1 was read back as 2^53,
     and MaxInt64 was rejected by the signed type -/
@@ -71,6 +79,7 @@ inductive Op where
   | rt1u (x : Nat) | rt1s (x : Int)         -- MarshalText → UnmarshalText of the 1.x types
   | toml1u (x : Nat) | toml1s (x : Int)     -- the 1.x types through the TOML encoder/decoder
   | tomlu (x : Nat) | tomls (x : Int)       -- Size / SSize through the TOML encoder/decoder
+  | drt (x : Int)                           -- Duration: MarshalText → UnmarshalText (also as a TOML string)
 
 def resU : Res Nat → Option Int
   | .ok v => some (v : Int)
@@ -86,6 +95,7 @@ def modelObs : Op → Obs
   | .toml1s x => .rtSize .v1s x (resS (tomlRoundTripV1S x))
   | .tomlu x => .rtSize .v2u x (resU (tomlRoundTripV2U x))
   | .tomls x => .rtSize .v2s x (resS (tomlRoundTripV2S x))
+  | .drt x => .rtDur x (durUnmarshal (durString x))
 
 /-- the one exclusion: a `Size` above MaxInt64 sent through a TOML document -/
 def opOK : Op → Bool
@@ -104,7 +114,7 @@ theorem C34_full_fails : ¬ ∀ op, holdsOn (modelObs op) = true := by
 /-- **C34 (partial)**: for every value of the target type, whatever the marshalers or the TOML
     encoder write is read back as the same value — except `Size > MaxInt64` through TOML
     (`C34_full_fails`).  Missing from this theorem (covered by correspondence only): the clause-2/3
-    judgement of arbitrary input texts on the humanize (float64) path, and durations. -/
+    judgement of arbitrary input texts on the humanize (float64) path and of arbitrary duration texts. -/
 theorem C34_partial (op : Op) (h : opOK op = true) : holdsOn (modelObs op) = true := by
   cases op with
   | rt1u x =>
@@ -145,7 +155,15 @@ theorem C34_partial (op : Op) (h : opOK op = true) : holdsOn (modelObs op) = tru
     · next hr =>
       have hx : -(2 ^ 63 : Int) ≤ x ∧ x < 2 ^ 63 := by simpa [inRange, Kind.signed] using hr
       simp [toml_v2s x hx, resS]
+  | drt x =>
+    simp only [holdsOn, modelObs, check]
+    split
+    · rfl
+    · next hr =>
+      have hx : -(2 ^ 63 : Int) ≤ x ∧ x < 2 ^ 63 := by simpa [inRange] using hr
+      simp [C34_duration_roundtrip x hx]
 
+example : opOK (.drt (-(2 ^ 63))) = true := by decide
 example : opOK (.tomlu (2 ^ 53 + 1)) = true ∧ opOK (.rt1s (-(2 ^ 63))) = true := by decide
 
 end Influx.Props.C34
